@@ -12,6 +12,8 @@ type checkSpec struct {
 	Flaky          bool // failure depends on scheduler / map seed: confirm with more replay attempts
 	Rapid          bool // driven by rapid.Check (passed-count is verified)
 	ThoroughOnly   bool
+	Fuzz           string // native fuzz target (go test -fuzz); thorough tier only
+	FuzzSeconds    int
 	requested      int
 }
 
@@ -80,6 +82,7 @@ var properties = map[string]*propSpec{
 		Checks: []checkSpec{
 			{Test: "TestC02_Total", Quick: 60000, Thorough: 1000000, Rapid: true},
 			{Test: "TestC02_Reduced", Quick: 1, Thorough: 1},
+			{Test: "FuzzParse", Fuzz: "FuzzParse", FuzzSeconds: 150, ThoroughOnly: true},
 		},
 		Assumptions: assume("'bounded time' is decided as: no case exceeds the 20 s hang detector", "process deaths (fatal stack overflow) are attributed through a per-shard journal and confirmed by replay in a fresh process"),
 		Floors: []floor{
@@ -94,6 +97,7 @@ var properties = map[string]*propSpec{
 		Title: "Evaluation is total: results are non-empty or a documented runtime error",
 		Checks: []checkSpec{
 			{Test: "TestC03_Total", Quick: 50000, Thorough: 800000, Rapid: true},
+			{Test: "FuzzRetrieve", Fuzz: "FuzzRetrieve", FuzzSeconds: 150, ThoroughOnly: true},
 		},
 		Assumptions: assume(specAssumption, "'bounded time' is decided as: no case exceeds the 20 s hang detector"),
 		Floors: []floor{
@@ -267,6 +271,7 @@ var properties = map[string]*propSpec{
 		Checks: []checkSpec{
 			{Test: "TestC17_Grammar", Quick: 30000, Thorough: 500000, Rapid: true},
 			{Test: "TestC17_Reduced", Quick: 1, Thorough: 1},
+			{Test: "FuzzParse", Fuzz: "FuzzParse", FuzzSeconds: 150, ThoroughOnly: true},
 		},
 		Assumptions: assume(pegiAssumption),
 		Floors: []floor{
@@ -277,10 +282,13 @@ var properties = map[string]*propSpec{
 		Title: "Retrieval returns exactly the nodes the JSONPath selects, in document order",
 		Checks: []checkSpec{
 			{Test: "TestC01_Spec", Quick: 40000, Thorough: 600000, Rapid: true},
+			{Test: "TestC01_Mutated", Quick: 25000, Thorough: 400000, Rapid: true, Shards: 8},
+			{Test: "FuzzSpec", Fuzz: "FuzzSpec", FuzzSeconds: 150, ThoroughOnly: true},
 		},
 		Assumptions: assume(specAssumption),
 		Floors: []floor{
 			{Check: "TestC01_Spec", Class: "nontrivial:>=2results", Min: 0.06},
+			{Check: "TestC01_Mutated", Class: "nontrivial", Min: 0.05},
 		},
 	},
 }
